@@ -40,6 +40,8 @@ POOL = [
     ('bad5.feature', 'Feature: b\n  Scenario: s\n    Given x\n      """\n      open\n'),
     ('bad6.feature', 'x\n' * 13),
     ('bad7.feature', 'Feature: b\nFeature: c\n  Scenario: s\n  | a |\n'),
+    ('bad8.feature', '# a comment that must not leak\n' + 'y\n' * 13),
+    ('bad9.feature', 'Feature: b\n  Scenario: s\n    Given x\n  @dangling\n'),
     ('uni.feature', 'Feature: ü😀\n  Scenario: <>&"\\\n    Given \\n\n      | \\| | 😀 |\n'),
 ]
 OPTS = list(itertools.product((False, True), repeat=3))
